@@ -216,6 +216,9 @@ def judge(ctx, cmd, journal, verd, stats, opc, qc, domc, notes):
             elif v[0] == "note":
                 notes[v[1][:90]] += 1
             elif v[0] == "MISMATCH":
+                if len(ctx.violations) >= 25:      # enough replays for one run; the rest is counted
+                    stats["mismatch_not_reported_individually"] += 1
+                    continue
                 site, tags = classify(lines, i, v[1], dom)
                 hid = lines[0].split()[1]
                 args = list(cmd[1:])
@@ -249,6 +252,7 @@ def run(ctx):
                 "non-trivial = at least 3 mutators and some printed state with >= 2 disjuncts" % length,
         "samples": samples, "traces_validated_against_impl": nh,
         "observations_decided": stats["ok"], "observations_mismatch": stats["MISMATCH"],
+        "mismatch_not_reported_individually": stats["mismatch_not_reported_individually"],
         "observations_skipped": {k[5:]: v for k, v in stats.items() if k.startswith("skip:")},
         "sequence_level_notes": dict(notes.most_common(12)),
         "histories_with_live_copies": stats["histories_with_live_copies"],
